@@ -11,9 +11,10 @@ if [ ! -f $REPO/config.h ] || [ ! -f $REPO/mpir.h ] || [ ! -f $REPO/gmp-mparam.h
   echo "setup: /repo not configured; running ./configure (offline)"
   (cd $REPO && ./configure >/dev/null 2>&1) || { echo "setup: configure failed"; exit 1; }
 fi
-if [ ! -f $REPO/.libs/libmpir.a ]; then
-  echo "setup: building libmpir.a for native replay"
-  (cd $REPO && make -j16 libmpir.la >/dev/null 2>&1) || echo "setup: library build failed (native replay unavailable; proofs unaffected)"
-fi
+# always bring the library up to date with the working tree (incremental make: seconds when nothing changed).  The archive in a restored
+# sandbox can be OLDER than the sources (it predated the fix: commits), and native replays / bounded units link everything they do not
+# compile themselves from it.
+echo "setup: make libmpir.la (incremental)"
+(cd $REPO && make -j16 libmpir.la >/dev/null 2>&1) || echo "setup: library build failed (native replay unavailable; proofs unaffected)"
 mkdir -p "$(dirname "$0")/../evidence" "$(dirname "$0")/../replay/out"
 echo "setup: ok (cbmc $(cbmc --version))"
